@@ -94,6 +94,15 @@ NOINST static size_t heap_bytes(void) {
 	struct mallinfo2 mi = mallinfo2();
 	return mi.uordblks;
 }
+#include <dirent.h>
+/* open file descriptors of the process (the directory stream's own fd is not counted) */
+NOINST static int open_fds(void) {
+	DIR *d = opendir("/proc/self/fd"); if (!d) return -1;
+	int n = 0; struct dirent *e;
+	while ((e = readdir(d))) if (e->d_name[0] != '.') n++;
+	closedir(d);
+	return n - 1;
+}
 NOINST static void check_balance(const char *what) {
 	if (mon_held_count()) {
 		char d[512]; mon_held_describe(d, sizeof d);
@@ -318,7 +327,7 @@ NOINST static int exec_main_step(int argc, char **argv, FILE *f) {
 		fclose(cf);
 		return 0;
 	}
-	if (!strcmp(op, "heap")) { ev("\"e\":\"heap\",\"tag\":\"%s\",\"bytes\":%zu", argc >= 2 ? argv[1] : "", heap_bytes()); return 0; }
+	if (!strcmp(op, "heap")) { ev("\"e\":\"heap\",\"tag\":\"%s\",\"bytes\":%zu,\"fds\":%d", argc >= 2 ? argv[1] : "", heap_bytes(), open_fds()); return 0; }
 	if (!strcmp(op, "par") && argc >= 2) {
 		int nt = atoi(argv[1]); if (nt < 1 || nt > 64) return 2;
 		worker_t *ws = calloc((size_t)nt, sizeof *ws);
